@@ -198,6 +198,9 @@ func (w *World) makeClients() {
 	mk("post", op.ApplicationTypeWeb, oidc.AuthMethodPost, []string{"https://post.sim/callback"})
 	mk("pub", op.ApplicationTypeUserAgent, oidc.AuthMethodNone, []string{"https://pub.sim/callback"})
 	mk("native", op.ApplicationTypeNative, oidc.AuthMethodNone, []string{"http://localhost/callback", "com.example.app:/cb"})
+	// a client that has a secret although its application type is not "web" (registrations like this exist: a
+	// native or browser-based app that was given a secret); authentication follows the auth method, not the type
+	mk("hyb", []op.ApplicationType{op.ApplicationTypeNative, op.ApplicationTypeUserAgent}[cfg.Int(2)], []oidc.AuthMethod{oidc.AuthMethodBasic, oidc.AuthMethodPost}[cfg.Int(2)], []string{"https://hyb.sim/callback"})
 	j := mk("jwt", op.ApplicationTypeWeb, oidc.AuthMethodPrivateKeyJWT, []string{"https://jwt.sim/callback"})
 	k := FixtureKey("rsa", 6)
 	k.KeyID = "jwt-key-1"
@@ -212,11 +215,12 @@ func (w *World) SortedClients() []string { return w.Store.SortedClientIDs() }
 // ---- raw protocol operations ----
 
 type Creds struct {
-	Mode      string // "none", "basic", "post", "assertion", "id-only"
-	ID        string
-	Secret    string
-	Assertion string
-	RawBasic  string // if set: the literal "user:pass" to base64 into the header (no escaping)
+	Mode         string // "none", "basic", "post", "assertion", "id-only"
+	ID           string
+	Secret       string
+	Assertion    string
+	RawBasic     string // if set: the literal "user:pass" to base64 into the header (no escaping)
+	BodyClientID string // additionally sent as client_id form value (may name another client than the credentials)
 }
 
 // PostForm sends a form to a provider endpoint with the given client credentials.
@@ -230,6 +234,9 @@ func (w *World) PostFormCtx(ctx context.Context, path string, form url.Values, c
 	for k, v := range form {
 		f[k] = append([]string(nil), v...)
 	}
+	if c.BodyClientID != "" {
+		f.Set("client_id", c.BodyClientID)
+	}
 	switch c.Mode {
 	case "post":
 		f.Set("client_id", c.ID)
@@ -239,7 +246,7 @@ func (w *World) PostFormCtx(ctx context.Context, path string, form url.Values, c
 	case "assertion":
 		f.Set("client_assertion", c.Assertion)
 		f.Set("client_assertion_type", oidc.ClientAssertionTypeJWTAssertion)
-		if c.ID != "" {
+		if c.ID != "" && c.BodyClientID == "" {
 			f.Set("client_id", c.ID)
 		}
 	}
